@@ -1,11 +1,11 @@
 (* C10 -- what coq/Gen/FilterKernels.v (regenerated at every run from pandora/filter/bilateral.py,
    median.py, median_for_intervals.py by translator/gen_filter_kernels.py) is written with, beside
-   the numpy combinators of Lib/NpArr.v: np.nanmedian over axes (2, 3) (the model's nanmedian), the
+   the numpy combinators of Lib/NpNd.v: np.nanmedian over axes (2, 3) (the model's nanmedian), the
    dataset record, the formula type of normalized_gaussian, and the INSTANCES of the holes the
    generated definitions leave open (the double block loop = BlockSkeleton.exec of the generated
    skeleton of Gen/BlockLoops.v).  Definitions only. *)
 From Coq Require Import ZArith QArith List Bool.
-From Pandora Require Import Lib.Arr Lib.NpArr Lib.Blocks Lib.BlockSkeleton Model.Filters.
+From Pandora Require Import Lib.Arr Lib.NpNd Lib.Blocks Lib.BlockSkeleton Model.Filters.
 Import ListNotations.
 Open Scope Z_scope.
 
